@@ -212,6 +212,12 @@ func runPubScenario(sc J) []stepResult {
 					min["body"] = classifyBody(raw, readFails)
 				}
 				cw := &countingWriter{w: world, header: http.Header{}, short: step["shortWrite"] != nil}
+				if step["staleHeaders"] != nil {
+					// an outer handler or middleware already set these: the library's values replace them
+					cw.header.Set("Content-Type", "text/plain; charset=utf-8")
+					cw.header.Set("Date", "Mon, 01 Jan 2001 00:00:00 GMT")
+					cw.header.Set("Digest", "SHA-256=stale")
+				}
 				var handled bool
 				switch entry {
 				case "postInbox":
